@@ -111,6 +111,18 @@ impl Kernel for NetKern {
                 sched::wake_pollers();
                 r
             }
+            sc::nr::SOCKET if a[0] == libc::AF_INET as usize => {
+                // the simulated network has no TIME_WAIT: ports of finished runs are reusable at
+                // once (tiny-std creates the socket inside bind, so this is set at the seam)
+                let r = kern::real(nr, a);
+                if (r as isize) >= 0 {
+                    let one: i32 = 1;
+                    unsafe {
+                        libc::setsockopt(r as i32, libc::SOL_SOCKET, libc::SO_REUSEADDR, std::ptr::from_ref(&one).cast(), 4);
+                    }
+                }
+                r
+            }
             _ => kern::default_syscall(nr, a),
         }
     }
@@ -366,12 +378,17 @@ fn stream_case(sm: &mut Box<Sim>, k: &Rc<NetKern>, tcp: bool, slot: u64, thoroug
     }
     sched::run(sm);
     let _ = std::fs::remove_file(&path);
-    if sm.violation.is_none() && (sh.received.get() != total || !sh.sent_ok.get()) {
+    let no_port = tcp && sh.port.get() == 1;
+    if no_port {
+        // harness set-up: no loopback port could be bound; the run says nothing about tiny-std
+        sm.count("harness.no_tcp_port");
+    }
+    if sm.violation.is_none() && !no_port && (sh.received.get() != total || !sh.sent_ok.get()) {
         sm.violate("stream|incomplete", format!("{} of {total} bytes received, writer finished: {}", sh.received.get(), sh.sent_ok.get()));
     }
     Out {
         sample: json!({"kind": if tcp { "tcp stream" } else { "unix stream" }, "bytes": total, "writer": if server_writes { "server" } else { "client" }, "write_chunks": chunks, "read_buffers": bufsizes, "so_sndbuf": bufs.0, "so_rcvbuf": bufs.1, "writer_closes_first": close_at_end, "strategy": format!("{:?}", sm.strategy)}),
-        nontrivial: k.n_ppoll_parked.get() >= 1 && total > 0,
+        nontrivial: k.n_ppoll_parked.get() >= 1 && total > 0 && !no_port,
     }
 }
 
